@@ -289,3 +289,22 @@ Example C16_nonvacuous :
 Proof.
   split; [split; [repeat constructor; discriminate|reflexivity]|vm_compute; reflexivity].
 Qed.
+
+(** the context's noerr.notpresent flag (which suppresses the message of
+    "page not present") is restored by every table scan, whatever its launch
+    and its table walk return, hence cleared again after every entry point
+    that starts with it cleared; a later non-present page is then reported
+    with a message *)
+Theorem C16_noerr_flags_restored : forall l flag, scans false flag l = flag.
+Proof. exact scans_restore. Qed.
+Print Assumptions C16_noerr_flags_restored.
+
+Theorem C16_not_present_has_message : forall l,
+  ax_status_msg_ok (step_not_present (scans false false l)) = true.
+Proof. exact not_present_has_message. Qed.
+
+(** the variant that sets the flag before the launch (seeded as C16-c1) *)
+Theorem C16_early_noerr_variant_refuted :
+  scans true false [(ADDRXLAT_ERR_INVALID, ADDRXLAT_OK)] = true /\
+  ax_status_msg_ok (step_not_present (scans true false [(ADDRXLAT_ERR_INVALID, ADDRXLAT_OK)])) = false.
+Proof. exact early_set_variant_loses_message. Qed.
